@@ -15,7 +15,7 @@ CLAIM = {
  'note': ('Trusted: Lean kernel; model<->code correspondence on the cases of the run. Not proved: CPython '
           'format(float, ".nf") = round-half-even of the exact binary value (probed against the Rat model on every run); '
           'float rounding inside numpy mean/median (checked against the exact rational mean/median with an ulp bound). '
-          'Identities are str (all shipped callers); no NaN/inf; X values distinct after printing. roundtrip_file assumes (decidable, necessity shown by '
+          'Identities are str (all shipped callers); no NaN/inf; X values distinct after printing. Non-ASCII names/units are exercised through real files (oracle only, the model is ASCII). roundtrip_file assumes (decidable, necessity shown by '
           'examples): WRAP NO header, no DATE.D/TIME.HHMMSS channel, identities/units plain tokens, descriptions without colon, '
           'distinct printed X values; the whole model text (fileText) is compared with the real writer and the C09 model parse of it '
           'with the real LASRead on every run (streams file_text, file_readback_model).'),
@@ -351,6 +351,61 @@ def expected_channels(case):
     return [c for c, n in enumerate(names) if c == 0 or n in case['subset']]
 
 
+def _read_back(ctx, case, full_text):
+    """The reader on the written file: through io.StringIO, or - `case['via']` - through a REAL file written exactly as the
+    ToLAS tools do (`open(path, 'w')`, default encoding) and read by path (`LASRead(path)`) or as an opened text file."""
+    import os
+    from TotalDepth.LAS.core import LASRead
+    via = case.get('via', 'stringio')
+    if via == 'stringio':
+        return LASRead.LASRead(io.StringIO(full_text), 'c10')
+    path = os.path.join(ctx.scratch, 'c10_roundtrip.las')
+    with open(path, 'w') as fh:
+        fh.write(full_text)
+    ctx.count('read_back_via_' + via)
+    if via == 'path':
+        return LASRead.LASRead(path)
+    with open(path) as fh:
+        return LASRead.LASRead(fh)
+
+
+# characters beyond ASCII that names and units carry in real logs and that `open(path, 'w')` can write in this locale:
+# Latin-1 (degree sign, micro sign, accented letters), Greek, a combining mark, a non-BMP character; none is white space
+NON_ASCII_NAMES = ['T\u00b0C', '\u00b5SF', 'R\u03a9', 'D\u00e9pth', 'GR\u00df', '\u0394T', 'e\u0301tat', 'PHI\U0001d6fc', '\u00c5NG', 'na\u00efve', '\u03b3RAY', 'N\u00ba1']
+NON_ASCII_UNITS = ['\u00b0C', '\u00b5s/ft', '\u03a9.m', 'g/cm\u00b3', 'm\u00b2', '\u00b0', '\u00b5s/m', 'k\u03a9', '\u212b', 'e\u0301', '\U0001d6fc/s', '\u00b0F']
+
+
+def writable(s):
+    """can `open(path, 'w')` of this process write the string (locale.getpreferredencoding(False))?"""
+    import locale
+    try:
+        s.encode(locale.getpreferredencoding(False)); return True
+    except (UnicodeEncodeError, LookupError):
+        return False
+
+
+def gen_file_case(rng):
+    """A case read back through a real file; two thirds of them with non-ASCII names/units (not sent to the Lean drivers)."""
+    case = gen_case(rng)
+    case['via'] = rng.choice(['path', 'path', 'file'])
+    if rng.random() < 0.67:
+        case['non_ascii'] = True
+        taken = set()
+        for c, ch in enumerate(case['chans']):
+            if rng.random() < 0.7:
+                n = rng.choice([x for x in NON_ASCII_NAMES if writable(x) and x not in taken] or [ch['ident']])
+                if any(n == s_ for s_ in case['subset']): pass
+                case['subset'] = [n if s_ == ch['ident'] else s_ for s_ in case['subset']]
+                ch['ident'] = n
+            taken.add(ch['ident'])
+            if rng.random() < 0.7:
+                u = rng.choice(NON_ASCII_UNITS)
+                if writable(u):
+                    ch['units'], ch['units_bytes'] = u, False
+            ch['long_bytes'] = False
+    return case
+
+
 def evaluate(ctx, case, want_corr=False):
     """The property oracle on the implementation alone. Returns None on failure, else data for the correspondence."""
     import numpy as np
@@ -424,7 +479,7 @@ def evaluate(ctx, case, want_corr=False):
     xvals = [float(t) for t in xt]
     collide = len(set(xvals)) != len(xvals)
     try:
-        las = LASRead.LASRead(io.StringIO(HEADER + text), 'c10')
+        las = _read_back(ctx, case, HEADER + text)
     except Exception as e:                                      # noqa
         if collide and 'Duplicate Xaxis' in str(e):
             ctx.count('x_collision_skipped_readback')
@@ -713,6 +768,13 @@ def run(ctx):
             correspond(ctx, cases, results)
             correspond_file(ctx, cases, results, ctx.n(700, 6000))
         ctx.count('cases', len(cases))
+    # ---- the written text goes through a REAL file (open(path, 'w') / LASRead(path) or an opened text file), names and
+    #      units with characters beyond ASCII included; oracle only (the Lean drivers take ASCII)
+    for _ in range(ctx.n(1500, 12000)):
+        case = gen_file_case(rng)
+        res = evaluate(ctx, case)
+        if res is not None and case.get('non_ascii'):
+            ctx.count('non_ascii_file_roundtrips')
     known_name_cases(ctx)
     if have_model:
         probe_format(ctx)
